@@ -7,6 +7,7 @@
 package main
 
 import (
+	"encoding/json"
 	"fmt"
 	"os"
 	"os/exec"
@@ -320,7 +321,51 @@ func worker(sh *ev.Shard) {
 	sh.Done()
 }
 
+// replay re-executes exactly one recorded schedule (scenario + choice sequence) with tracing on.
+func replay(path string) {
+	b, err := os.ReadFile(path)
+	if err != nil {
+		fmt.Println("cannot read replay file:", err)
+		os.Exit(2)
+	}
+	var art struct {
+		Detail struct {
+			Scenario string `json:"scenario"`
+			Choices  []int  `json:"choices"`
+		} `json:"detail"`
+	}
+	if err := json.Unmarshal(b, &art); err != nil || art.Detail.Scenario == "" {
+		fmt.Println("not a C15 schedule replay artefact (race-pass reports carry the race detector output instead):", err)
+		os.Exit(2)
+	}
+	for _, pl := range append(plans(false), plans(true)...) {
+		if pl.sc.String() != art.Detail.Scenario {
+			continue
+		}
+		x := vsync.RunOne(art.Detail.Choices, mkHarness(pl.sc))
+		for _, l := range x.Trace {
+			fmt.Println(l)
+		}
+		if len(x.Fails) > 0 {
+			for _, f := range x.Fails {
+				fmt.Printf("FAILURE %s: %s\n", f.Sig, f.Detail)
+			}
+			fmt.Printf("VIOLATION property=C15 replay=%s\n", path)
+			os.Exit(1)
+		}
+		fmt.Println("replayed schedule shows no failure on the current tree")
+		os.Exit(0)
+	}
+	fmt.Println("unknown scenario in replay file")
+	os.Exit(2)
+}
+
 func main() {
+	for i, a := range os.Args {
+		if a == "--replay" && i+1 < len(os.Args) {
+			replay(os.Args[i+1])
+		}
+	}
 	if sh := ev.ShardFromArgs(); sh != nil {
 		worker(sh)
 		return
